@@ -446,28 +446,28 @@ func ruleBulkFraming(w *core.World, r *core.Report) {
 		r.Check(bad == "" && succ > 0, "Decoder.decodeBulkBytes/framing", badPos, "%s", bad)
 	}
 	if f := fn(w, r, "pkg/redis/client.ParseArgs"); f != nil {
-		ok := false
-		for _, in := range core.Instrs(f) {
-			ret, isRet := in.(*ssa.Return)
-			if !isRet || len(ret.Results) != 3 {
-				continue
+		// decided on paths (the conversion loop and the split into name and arguments may be phases of their own):
+		// every return with a nil error hands out list[1:] of the list that was allocated for the elements
+		bad, succ := "", 0
+		var badPos token.Pos = f.Pos()
+		okEnum := core.EnumPaths(f.Blocks[0], 0, 20000, func(p *core.Path) {
+			ret, ok := p.End.(*ssa.Return)
+			if !ok || len(ret.Results) != 3 || bad != "" || !pathNil(p, ret.Results[2]) {
+				return
 			}
-			for _, v := range core.RetVals(ret, 2) {
-				if !core.IsNilConst(v) {
-					goto next
+			succ++
+			if sl, isSl := p.Resolve(ret.Results[1]).(*ssa.Slice); isSl && isConstInt(1)(sl.Low) && sl.High == nil && sl.Max == nil {
+				if _, isMk := p.Resolve(sl.X).(*ssa.MakeSlice); isMk {
+					return
 				}
 			}
-			for _, v := range core.RetVals(ret, 1) {
-				sl, isSl := v.(*ssa.Slice)
-				if isSl && isConstInt(1)(sl.Low) && sl.High == nil {
-					if _, isMk := sl.X.(*ssa.MakeSlice); isMk {
-						ok = true
-					}
-				}
-			}
-		next:
+			bad, badPos = "a return without error does not carry list[1:] of the list built from the elements", ret.Pos()
+		})
+		if !okEnum {
+			r.Undecided("ParseArgs/args", f.Pos(), "too many paths")
+		} else {
+			r.Check(bad == "" && succ > 0, "ParseArgs/args", badPos, "the success return must carry every element after the command name (bs[1:]): %s (returns without error: %d)", bad, succ)
 		}
-		r.Check(ok, "ParseArgs/args", f.Pos(), "the success return must carry every element after the command name (bs[1:])")
 	}
 }
 
